@@ -71,7 +71,7 @@ def canon_value(v):
             seen[dump(it)] = it
         return ['set'] + [seen[k] for k in sorted(seen)]
     if h == 'rec':
-        items = [[kv[0], canon_value(kv[1])] for kv in v[1:]]
+        items = [[kv[0], canon_value(kv[1])] + [canon(x) for x in kv[2:]] for kv in v[1:]]     # schema record types: (key type optional annots)
         items.sort(key=lambda kv: unS(kv[0]))
         return ['rec'] + items
     return [canon(x) for x in v]
